@@ -31,6 +31,7 @@ structure Obs where
   obsv : List (Nat × String)
   cbs : List (Nat × Nat)
   spans : List Nat
+  spanPar : List (Nat × Option Nat)      -- exported span → the exported span the SDK recorded as its parent
   props : List (Nat × Nat)
 deriving Repr
 
@@ -48,6 +49,7 @@ structure Ref where
   dead : List Nat := []
   postSpans : List Nat := []
   concSpans : List Nat := []
+  spanPar : List (Nat × Nat) := []       -- span → the span whose context it was started under (script)
   props : List (Nat × Option Nat) := []
   preEntities : Nat := 0
 deriving Repr
@@ -66,7 +68,11 @@ def refOp (G : Nat) (r : Ref) : Op → Ref
   | .R c _ is => { r with cbs := (c, is) :: r.cbs, preEntities := if r.mPh = .pre then r.preEntities + 1 else r.preEntities }
   | .U c => { r with dead := c :: r.dead }
   | .T _ => r
-  | .S _ id =>
+  | .TS _ _ => r
+  | .S _ id par =>
+    let r := match par with
+      | some j => { r with spanPar := (id, j) :: r.spanPar }
+      | none => r
     match r.tPh with
     | .pre => r
     | .conc => { r with concSpans := id :: r.concSpans }
@@ -153,6 +159,13 @@ def syncOK (r : Ref) (i kind : Nat) (o : String) : Bool :=
     | none => false
     | some n => n ≥ ps && ((subsetPairs conc).map (·.2)).contains (n - ps) && (o == "-" || n > 0)
 
+/-- the nearest ancestor (in the script's context chain) that reached the SDK: a placeholder span only hands on the
+span context it found in its own context, so the SDK sees the nearest real ancestor as the parent -/
+def firstReal (par : List (Nat × Nat)) (real : List Nat) : Nat → Option Nat → Option Nat
+  | 0, _ => none
+  | _, none => none
+  | f + 1, some j => if real.contains j then some j else firstReal par real f (lookupS par j)
+
 def insertNat (x : Nat) : List Nat → List Nat
   | [] => [x]
   | y :: r => if x ≤ y then x :: y :: r else y :: insertNat x r
@@ -183,6 +196,7 @@ def globalOK (ops : List Op) (o : Obs) : Bool :=
   && nodupNat o.spans
   && r.postSpans.all (o.spans.contains ·)
   && o.spans.all (fun s => r.postSpans.contains s || r.concSpans.contains s)
+  && o.spanPar.all (fun (s, p) => p == firstReal r.spanPar o.spans (r.spanPar.length + 1) (lookupS r.spanPar s))
   && o.props.map (·.1) == sortNat (r.props.map (·.1))
   && o.props.all (fun (p, v) => match lookupS r.props p with
       | some (some e) => v == e
